@@ -215,33 +215,33 @@ def plan(tier):
             ref = {'+': 'vpw::add(A, B)', '-': 'vpw::sub(A, B)', '&': 'vpw::bit_and(A, B)', '|': 'vpw::bit_or(A, B)', '^': 'vpw::bit_xor(A, B)'}[sym]
             rp = chk(name, 'auto r = a %s b; return vpw::same(vpw::load<%s, %d>(r), %s);' % (sym, limb_cxx, N, ref), second=True)
             jobs.append(Job('%s.%s.%s' % (PROP, name, tag), kname, r'^auto cnl::_impl::operator[-+&|^]<cnl::_impl::wrapper<cnl::_impl::math::wide_integer::uintwide_t<',
-                            binop_contract(sym, signed), via=sname, inputs=['vp_in1', 'vp_in2'], **rp, prop=PROP, unwind=20, timeout=900, skip_this=False, object_bits=13,
+                            binop_contract(sym, signed), via=sname, inputs=['vp_in1', 'vp_in2'], **rp, prop=PROP, unwind=20, timeout=900, skip_this=False, object_bits=13, mem_est=4,
                             solvers=('minisat',), layer=3))
         if signed:
             sname = 'vp_neg_' + tag
             src.append('extern "C" void %s(%s const* a, %s* r) { *r = -*a; }\n' % (sname, Wt, Wt))
             jobs.append(Job('%s.negate.%s' % (PROP, tag), kname, r'^auto cnl::_impl::operator-<cnl::_impl::wrapper<cnl::_impl::math::wide_integer::uintwide_t<.*> >\(cnl::_impl::wrapper<[^()]*\) ?$|^auto cnl::_impl::operator-<cnl::_impl::wrapper<',
                             unop_contract('-'), via=sname, inputs=['vp_in1'],
-                            **chk('neg', 'auto r = -a; return vpw::same(vpw::load<%s, %d>(r), vpw::neg(A));' % (limb_cxx, N)), prop=PROP, unwind=20, timeout=900, skip_this=False, object_bits=13, layer=3))
+                            **chk('neg', 'auto r = -a; return vpw::same(vpw::load<%s, %d>(r), vpw::neg(A));' % (limb_cxx, N)), prop=PROP, unwind=20, timeout=900, skip_this=False, object_bits=13, mem_est=4, layer=3))
         # shifts: a symbolic count makes CBMC run out of memory (limb move + bit shift loops); the count is fixed per job to a boundary-rich
         # set (harness assigns the constant, so symex folds the limb loops) and the contract is proved for ALL values at that count
-        counts = [1, 31, 32, 33, D - 1] if not thorough else [0, 1, 15, 16, 17, 31, 32, 33, 63, 64, 65, 100, D - 33, D - 1]
+        counts = [1, 31, 32, 33, D - 1] if not thorough else [0, 1, 15, 16, 17, 32, 33, 64, 100, D - 1]
         for name, left in (('shl', True), ('shr', False)):
             sname = 'vp_%s_%s' % (name, tag)
             src.append('extern "C" void %s(%s const* a, int s, %s* r) { *r = *a %s s; }\n' % (sname, Wt, Wt, '<<' if left else '>>'))
             rp = chk(name, 'auto r = a %s s; return vpw::same(vpw::load<%s, %d>(r), %s);' % ('<<' if left else '>>', limb_cxx, N, 'vpw::shl(A, s)' if left else 'vpw::shr(A, s, S)'), extra=[('int', 's')])
             for K in counts:
                 jobs.append(Job('%s.%s%d.%s' % (PROP, name, K, tag), kname, r'^auto cnl::_impl::operator(<<|>>)<cnl::_impl::wrapper<cnl::_impl::math::wide_integer::uintwide_t<',
-                                shift_contract(left, signed, K), via=sname, prop=PROP, unwind=20, timeout=900, skip_this=False, object_bits=13,
+                                shift_contract(left, signed, K), via=sname, prop=PROP, unwind=20, timeout=900, skip_this=False, object_bits=13, mem_est=4,
                                 harness_pre='vp_in2 = %d;' % K, inputs=['vp_in1', 'vp_in2'], **rp, note='shift count fixed to %d (one job per count of a boundary-rich set); all operand values' % K,
-                                solvers=('minisat', 'cadical'), layer=3))
+                                solvers=('minisat',), layer=3))
         for name, sym in (('eq', '=='), ('lt', '<'), ('ge', '>=')) + ((('ne', '!='), ('le', '<='), ('gt', '>')) if thorough else ()):
             sname = 'vp_%s_%s' % (name, tag)
             src.append('extern "C" bool %s(%s const* a, %s const* b) { return *a %s *b; }\n' % (sname, Wt, Wt, sym))
             ref = {'==': 'vpw::same(A, B)', '!=': '!vpw::same(A, B)', '<': 'vpw::less(A, B, S)', '>': 'vpw::less(B, A, S)', '<=': '!vpw::less(B, A, S)', '>=': '!vpw::less(A, B, S)'}[sym]
             rp = chk(name, 'return (a %s b) == (%s);' % (sym, ref), second=True)
             jobs.append(Job('%s.%s.%s' % (PROP, name, tag), kname, r'^auto cnl::_impl::operator(==|!=|<=?|>=?)<cnl::_impl::wrapper<cnl::_impl::math::wide_integer::uintwide_t<',
-                            cmp_contract(sym, signed), via=sname, inputs=['vp_in0', 'vp_in1'], **rp, prop=PROP, unwind=20, timeout=900, skip_this=False, object_bits=13, layer=3))
+                            cmp_contract(sym, signed), via=sname, inputs=['vp_in0', 'vp_in1'], **rp, prop=PROP, unwind=20, timeout=900, skip_this=False, object_bits=13, mem_est=4, layer=3))
         # construction from / conversion to built-in integers, ++ and --
         PW = r'cnl::_impl::wrapper<cnl::_impl::math::wide_integer::uintwide_t<[^()]*>, cnl::wide_tag<[^()]*> >'
         for ts in (['i64', 'u32'] + (['i8', 'u64'] if thorough else [])):
@@ -251,20 +251,20 @@ def plan(tier):
             src.append('extern "C" int vp_chk_from_%s_%s(%s v) { %s r{v}; return vpw::same(vpw::load<%s, %d>(r), vpw::from_ll<%d>(static_cast<long long>(v), %s)); }\n'
                        % (ts, tag, cxx(ts), Wt, limb_cxx, N, N * lb, 'true' if t.signed else 'false'))
             jobs.append(Job('%s.from_%s.%s' % (PROP, ts, tag), kname, r'^%s::wrapper<%s>\(%s const&\)$' % (PW, dem(ts), dem(ts)),
-                            ctor_contract(t), via=sname, inputs=['vp_in1'], shim='vp_chk_from_%s_%s' % (ts, tag), shim_types=[ts], oracle=yes, prop=PROP, unwind=20, timeout=600, skip_this=False, object_bits=13, layer=3))
+                            ctor_contract(t), via=sname, inputs=['vp_in1'], shim='vp_chk_from_%s_%s' % (ts, tag), shim_types=[ts], oracle=yes, prop=PROP, unwind=20, timeout=600, skip_this=False, object_bits=13, mem_est=4, layer=3))
         for ts in (['i64', 'u16'] + (['i32', 'u64'] if thorough else [])):
             t = T(ts)
             sname = 'vp_to_%s_%s' % (ts, tag)
             src.append('extern "C" %s %s(%s const* a) { return static_cast<%s>(*a); }\n' % (cxx(ts), sname, Wt, cxx(ts)))
             jobs.append(Job('%s.to_%s.%s' % (PROP, ts, tag), kname, r'^%s::operator %s<%s>\(\) const$' % (PW, dem(ts), dem(ts)),
                             conv_contract(t), via=sname, inputs=['vp_in0'],
-                            **chk('to_' + ts, 'return static_cast<%s>(a) == static_cast<%s>(vpw::low64(A));' % (cxx(ts), cxx(ts))), prop=PROP, unwind=20, timeout=600, skip_this=False, object_bits=13, layer=3))
+                            **chk('to_' + ts, 'return static_cast<%s>(a) == static_cast<%s>(vpw::low64(A));' % (cxx(ts), cxx(ts))), prop=PROP, unwind=20, timeout=600, skip_this=False, object_bits=13, mem_est=4, layer=3))
         for name, sym in (('inc', '+'), ('dec', '-')):
             sname = 'vp_%s_%s' % (name, tag)
             src.append('extern "C" void %s(%s* a) { %s%s*a; }\n' % (sname, Wt, sym, sym))
             jobs.append(Job('%s.%s.%s' % (PROP, name, tag), kname, r'^decltype\(auto\) cnl::_impl::operator(\+\+|--)<%s >\(%s&\)$' % (PW, PW),
                             step_contract(sym), via=sname, inputs=['vp_in0'],
-                            **chk(name, 'auto r = a; %s%sr; return vpw::same(vpw::load<%s, %d>(r), vpw::%s(A, vpw::one<%d>()));' % (sym, sym, limb_cxx, N, 'add' if sym == '+' else 'sub', N * lb)), prop=PROP, unwind=20, timeout=600, skip_this=False, object_bits=13, layer=3))
+                            **chk(name, 'auto r = a; %s%sr; return vpw::same(vpw::load<%s, %d>(r), vpw::%s(A, vpw::one<%d>()));' % (sym, sym, limb_cxx, N, 'add' if sym == '+' else 'sub', N * lb)), prop=PROP, unwind=20, timeout=600, skip_this=False, object_bits=13, mem_est=4, layer=3))
     k = Kernel(kname, ''.join(src), [], 'wide_integer linear operations')
     meta = {'instantiations': len(jobs),
             'explanation': 'limbs concatenated into one W-bit vector; every limb loop closed by complete unwinding',
